@@ -54,6 +54,13 @@ def parse(arr, tr, ne, tmpdir, labels=None, outside=None):
     if probs:
         return {"error": ("mesh-consistency-after-resampling", probs[:3])}
     frame = call(fs.frames.Frame, 0, v, e, c, time=0)
+    # the frame's interfaces are exactly the junction-to-junction chains of the resampled mesh (independent walk)
+    from .. import refdecomp
+    ref_paths, _ = refdecomp.reference_interfaces(v, e, c)
+    got_paths = [refdecomp.canon([int(x) for x in pth]) for pth in frame.big_edges_list]
+    if sorted(got_paths) != sorted(refdecomp.canon(q) for q in ref_paths):
+        return {"error": ("frame-interfaces-differ-from-mesh-chains",
+                          [f"{len(got_paths)} interfaces listed, {len(ref_paths)} junction-to-junction chains in the mesh"])}
     out = {"n_cells": len(c), "frame": frame, "cells": c, "vertices": v, "edges": e}
     deg = {}
     for ed in e.values():
